@@ -288,6 +288,18 @@ def f4_cells():
         out.append(P(f"f4_{t}_else_if", "F4", Program([fn_main([("a", t), ("b", t), ("c", t)], t, [], If(
             Bin("<", a, b, "bool"), Block([], Lit(t, 1), t),
             Block([], If(Bin("<", b, c, "bool"), Block([], Lit(t, 2), t), Block([], If(Bin("==", a, c, "bool"), Block([], Lit(t, 3), t), Block([], Bin("+", a, c, t), t), t), t), t), t), t))]), {"value"}))
+        # an if-expression whose then-branch contains a loop that may return but may also run zero times
+        out.append(P(f"f4_{t}_if_value_with_returning_loop", "F4", Program([fn_main([("a", t), ("b", t), ("c", t)], t, [
+            Let("i", t, zero),
+            Let("v", t, If(Bin(">", a, zero, "bool"),
+                           Block([ExprStmt(While(Bin("<", i, b, "bool"), Block([ExprStmt(Ret(Bin("+", Lit(t, 100), i, t)))], None, "unit")))], Lit(t, 5), t),
+                           Block([], Lit(t, 6), t), t))], Bin("+", Var("v", t), c, t))]), {"value"}))
+        # a long function: more than 64 basic blocks (36 sequential ifs)
+        many = [Let("s", t, a)]
+        for k in range(36):
+            many.append(ExprStmt(If(Bin("==", Bin("+", b, Lit(t, k % 7), t), Lit(t, k % 5), "bool"), Block([Assign(s, Lit(t, 1), "+")], None, "unit"), None, "unit")))
+        if t == "i32":
+            out.append(P(f"f4_{t}_many_blocks", "F4", Program([fn_main([("a", t), ("b", t)], t, many, s)]), {"value"}))
         # helper functions, recursion (factorial-like with bounded depth) and mutual recursion
         n = Var("n", t)
         fact = FnDef("fact", [("n", t)], t, Block([], If(Bin("<=", n, one, "bool"), Block([], one, t), Block([], Bin("*", n, Call("fact", [Bin("-", n, one, t)], t), t), t), t), t))
@@ -635,6 +647,12 @@ def f7_cells():
         ("Some", ["v"], Bin(">", pu(v), Lit(t, 100), "bool"), Lit(t, 2)),
         ("Some", ["v"], None, Block([ExprStmt(em(v))], v, t)),
         ("None", [], None, Block([ExprStmt(em(c))], c, t))], t))]), {"trace", "value"}))
+    # guarded wildcard arm listed after the named arms and before the catch-all
+    out.append(P("f7_match_trailing_wildcard_guard", "F7", Program([pick, fn_main([("a", t), ("b", t), ("c", t)], t, [], Match(Call("pick", [pu(a), pu(b)], ot), [
+        ("Some", ["v"], Bin(">", pu(v), Lit(t, 10), "bool"), Lit(t, 1)),
+        ("Some", ["v"], None, Lit(t, 3)),
+        ("_", [], Bin("==", pu(c), Lit(t, 5), "bool"), Lit(t, 2)),
+        ("_", [], None, Lit(t, 4))], t))]), {"trace", "value"}))
     # a guarded wildcard arm written above the arms naming the variant
     out.append(P("f7_match_leading_wildcard_guard", "F7", Program([pick, fn_main([("a", t), ("b", t), ("c", t)], t, [], Match(Call("pick", [pu(a), pu(b)], ot), [
         ("_", [], Bin(">", pu(c), Lit(t, 0), "bool"), Lit(t, 1)),
@@ -767,6 +785,22 @@ def f10_cells():
     v8 = ("verdict", u8, u64)
     a8, b8 = Var("a", u8), Var("b", u8)
     out.append(P("f10_ret_verdict_u8_u64", "F10", Program([fn_main([("a", u8), ("b", u8)], v8, [], If(Bin("<", a8, b8, "bool"), Block([], Ctor(v8, "Accept", [b8]), v8), Block([], Ctor(v8, "Reject", [Lit(u64, 0x1122334455667788)]), v8), v8))]), {"value"}))
+    # constants registered by the host library (extract/src/main.rs): the script must see the Rust value
+    consts = [("K_U8", "u8", 0xA5), ("K_I16", "i16", -2), ("K_U32", "u32", 0xDEADBEEF), ("K_I64", "i64", -0x1122334455667788), ("K_BOOL", "bool", True)]
+    for cname, ct, cv in consts:
+        if ct == "bool":
+            body = If(Const(cname, ct, cv), Block([], Lit(i32, 1), i32), Block([], Lit(i32, 0), i32), i32)
+            out.append(P(f"f10_const_{cname.lower()}", "F10", Program([fn_main([("a", i32)], i32, [], body)]), {"value"}))
+        else:
+            x = Var("a", ct)
+            out.append(P(f"f10_const_{cname.lower()}", "F10", Program([fn_main([("a", ct)], ct, [], Bin("+", x, Const(cname, ct, cv), ct))]), {"value"}))
+    for cname, ct, cv in [("K_OPT_U32", ("opt", "u32"), ("Some", 5)), ("K_OPT_NONE_U64", ("opt", "u64"), ("None",)), ("K_OPT_U8", ("opt", "u8"), ("Some", 200))]:
+        it = ct[1]
+        out.append(P(f"f10_const_{cname.lower()}", "F10", Program([fn_main([("a", it)], it, [], Match(Const(cname, ct, cv), [
+            ("Some", ["v"], None, Bin("+", Var("v", it), Var("a", it), it)), ("None", [], None, Var("a", it))], it))]), {"value"}))
+    vc = ("verdict", "u8", "u64")
+    out.append(P("f10_const_k_ver", "F10", Program([fn_main([("a", u64)], u64, [], Match(Const("K_VER_U8_U64", vc, ("Accept", 7)), [
+        ("Accept", ["v"], None, Bin("+", x64, Lit(u64, 1), u64)), ("Reject", ["w"], None, Var("w", u64))], u64))]), {"value"}))
     viu = ("verdict", i32, "unit")
     out.append(P("f10_ret_verdict_i32_unit", "F10", Program([fn_main([("a", i32)], viu, [], If(Bin("<", a, Lit(i32, 0), "bool"), Block([], Ctor(viu, "Accept", [a]), viu), Block([], Ctor(viu, "Reject", [Lit("unit", None)]), viu), viu))]), {"value"}))
     return out
@@ -816,6 +850,12 @@ def f11_cells():
         ExprStmt(For("e", u, l, Block([
             ExprStmt(If(Bin("<", Method(l, "len", [], u), Lit(u, 3), "bool"), Block([ExprStmt(Method(l, "push", [Bin("+", Var("e", u), y, u)], "unit"))], None, "unit"), None, "unit")),
             Assign(tt, Var("e", u), "+")], None, "unit")))], Bin("+", tt, Method(l, "len", [], u), u))]), {"value"}))
+    # the for loop iterates over the list the variable held when the loop started, even if the body re-assigns the variable
+    out.append(P("f11_for_over_variable_reassigned", "F11", Program([fn_main([("a", u), ("b", u)], u, [
+        Let("l", lu, ListLit(lu, [Lit(u, 1), Lit(u, 2), Lit(u, 3)])), Let("t", u, Lit(u, 0)),
+        ExprStmt(For("e", u, l, Block([
+            ExprStmt(If(Bin("==", Var("e", u), x, "bool"), Block([Assign(l, ListLit(lu, [Lit(u, 10), Lit(u, 20), Lit(u, 30), Lit(u, 40)]))], None, "unit"), None, "unit")),
+            Assign(tt, Var("e", u), "+")], None, "unit")))], Bin("+", tt, Method(l, "len", [], u), u))]), {"value"}))
     # element order of a list literal with effects
     i32 = "i32"
     pu = lambda e: Host("pure_i32", [e], i32)
@@ -855,7 +895,14 @@ def f13_cells():
                                 Block([ExprStmt(em(FStr(["i", Var("i", i32)]))), Assign(Var("i", i32), one, "+")], None, "unit")))], Var("i", i32)),
         "fstring_bool_and_types": ([ExprStmt(em(FStr([Bin("<", a, b, "bool"), " ", Lit("u8", 200), " ", Lit("i64", -5)])))], a),
     }
+    # an f-string part that leaves the function early (the accumulator built so far must still be released)
+    cases["fstring_part_returns"] = ([Let("s", S, lit("p"))], Block([ExprStmt(em(FStr(["v=", s_, ":", If(Bin(">", a, b, "bool"), Block([ExprStmt(Ret(one))], a, i32), Block([], b, i32), i32), "!"])))], zero, i32))
+    cases["fstring_part_returns_first"] = ([], Block([ExprStmt(em(FStr([If(Bin("==", a, b, "bool"), Block([ExprStmt(Ret(one))], a, i32), Block([], b, i32), i32), "-", lit("tail")])))], zero, i32))
+    cases["string_arg_read_order"] = ([Let("s", S, lit("old"))], Call("first_len", [s_, Block([Assign(s_, lit("new!"))], a, i32)], i32))
     for name, (stmts, e) in cases.items():
+        helpers_ = [FnDef("first_len", [("p", S), ("n", i32)], i32, Block([ExprStmt(em(Var("p", S)))], Var("n", i32), i32))] if name == "string_arg_read_order" else []
+        out.append(P(f"f13_{name}", "F13", Program(helpers_ + [fn_main([("a", i32), ("b", i32)], i32, stmts, e)]), {"ledger", "value", "trace"}))
+    for name, (stmts, e) in {}.items():
         out.append(P(f"f13_{name}", "F13", Program([fn_main([("a", i32), ("b", i32)], i32, stmts, e)]), {"ledger", "value", "trace"}))
     # strings inside records / options
     rty = ("rec", "Named")
@@ -864,6 +911,19 @@ def f13_cells():
         Assign(Field(Var("q", rty), "s", S), cat(Field(Var("q", rty), "s", S), lit("+"))),
         ExprStmt(em(Field(Var("r", rty), "s", S))), ExprStmt(em(Field(Var("q", rty), "s", S)))], Field(Var("q", rty), "n", i32))],
         records={"Named": [("n", i32), ("s", S)]}), {"ledger", "value", "trace"}))
+    # structural equality of records whose by-reference field comes first / in the middle
+    for idx, fields in enumerate([[("name", S), ("id", "i64")], [("id", "i64"), ("name", S)], [("k", "u8"), ("name", S), ("id", "i64")]]):
+        rn = f"Rs{idx}"
+        rty2 = ("rec", rn)
+
+        def mkrec(namepart, idv):
+            return RecLit(rty2, [(f, (FStr(["n", namepart]) if t == S else (Lit(t, 7) if t == "u8" else idv))) for f, t in fields])
+        a64, b64 = Var("a", "i64"), Var("b", "i64")
+        prog = Program([fn_main([("a", "i64"), ("b", "i64")], "i64", [Let("x", rty2, mkrec(a64, b64)), Let("y", rty2, mkrec(a64, b64)), Let("z", rty2, mkrec(b64, b64))],
+                                If(Bin("==", Var("x", rty2), Var("y", rty2), "bool"),
+                                   Block([], If(Bin("!=", Var("x", rty2), Var("z", rty2), "bool"), Block([], Lit("i64", 1), "i64"), Block([], Lit("i64", 2), "i64"), "i64"), "i64"),
+                                   Block([], Lit("i64", 3), "i64"), "i64"))], records={rn: fields})
+        out.append(P(f"f13_record_eq_string_field_{idx}", "F13", prog, {"ledger", "value"}))
     oty = ("opt", S)
     out.append(P("f13_option_string_match", "F13", Program([fn_main([("a", i32), ("b", i32)], i32, [
         Let("o", oty, If(Bin(">", a, b, "bool"), Block([], Ctor(oty, "Some", [FStr(["v", a])]), oty), Block([], Ctor(oty, "None", []), oty), oty))],
